@@ -95,7 +95,18 @@ inline int error_code(const std::string &msg)
     return 99;
 }
 
-// scripted random generator usable as random_t (needs a `seed` member)
+// the components (each in its own translation unit; stubs.cpp stands in for one that does not compile)
+void do_graph(Toks &tk, std::ostream &os);
+void do_upd(Toks &tk, std::ostream &os);
+void do_layout(Toks &tk, std::ostream &os);
+void do_resize(Toks &tk, std::ostream &os);
+void do_wmem(Toks &tk, std::ostream &os);
+void do_wafv(Toks &tk, std::ostream &os);
+void do_waff(Toks &tk, std::ostream &os);
+void do_parse(Toks &tk, std::ostream &os);
+void do_raff(Toks &tk, std::ostream &os);
+void do_rng(Toks &tk, std::ostream &os);
+
 void do_e2e_uu(Toks &tk, std::ostream &os, const std::string &id, bool directed, bool assort, bool from_init);
 void do_e2e_ir(Toks &tk, std::ostream &os, const std::string &id, bool directed, bool assort, bool from_init);
 void do_e2e_si(Toks &tk, std::ostream &os, const std::string &id, bool directed, bool assort, bool from_init);
